@@ -16,8 +16,8 @@ TRUSTED = ['Lean 4.33 kernel + Mathlib v4.33 (axioms: propext, Classical.choice,
            'np.linalg.pinv is an oracle (contract: inverse of an invertible 6x6 matrix); theorems are stated for any forces solving invJ^T tau = W',
            'the body-frame interface and carryMassCalc bookkeeping are decided on the implementation only (sampled)',
            'the derivative theorem assumes the top joint moves with the velocity field of a rigid motion with spatial twist V (standard kinematics; not derived from the exp6 model)']
-ASSUMPTIONS = ['geometries, placements and poses of C09 with cond(invJ) <= 1e4', 'derivative to 1e-6 (Richardson, steps 1e-3/5e-4), equilibrium to 1e-8 relative to the wrench norm']
-RULE = ('random geometries x {plain at a random base, moved, re-spun and moved} x in-workspace relative poses accepted without corrective action x random twists and wrenches (components up to 1 and 10); '
+ASSUMPTIONS = ['geometries, placements and poses of C09 with cond(invJ) <= 1e4', 'derivative to 1e-6 (Richardson, steps 2e-4/1e-4), equilibrium to 1e-8 relative to the wrench norm']
+RULE = ('random geometries x {plain at a random base, moved, re-spun and moved, small platform far (up to 12) from the origin with cond 1e3..1e4} x in-workspace relative poses accepted without corrective action x random twists and wrenches (components up to 1 and 10); '
         'distinct = distinct (geometry, placement, pose); non-trivial = non-vertical wrench away from the origin')
 SAMPLED = ['staticForcesBody / staticForcesInvBody agree with the space-frame interface through the wrench frame change', 'carryMassCalc loads the legs with wrench + top plate weight + shaft weights at their centres of gravity']
 
@@ -37,11 +37,20 @@ def run(res, tier, seed, driver_ok):
 
     for n_ in range(N):
         base6 = [rnd.uniform(-2, 2) for _ in range(3)] + [rnd.uniform(-1.5, 1.5) for _ in range(3)]
-        mode = rnd.choice(['plain', 'moved', 'spun_moved'])
+        mode = rnd.choice(['plain', 'moved', 'spun_moved', 'far'])
         stats['modes'][mode] = stats['modes'].get(mode, 0) + 1
+        geo = None
+        if mode == 'far':
+            # a small platform standing far from the world origin: the moment rows q x n dominate and the inverse Jacobian's
+            # condition number reaches 1e3..1e4, the upper part of the property's range
+            geo = sph.geometry(rnd)
+            sc = rnd.uniform(0.2, 0.35) / geo['rb']
+            for k in ('rb', 'rt', 'bth', 'tth', 'lmin', 'lmax'):
+                geo[k] *= sc
+            base6 = [rnd.uniform(-12, 12) for _ in range(3)] + [rnd.uniform(-1.5, 1.5) for _ in range(3)]
         try:
             with contextlib.redirect_stdout(io.StringIO()):
-                sp, g = sph.build(rnd, base6=base6 if mode == 'plain' else None)
+                sp, g = sph.build(rnd, g=geo, base6=base6 if mode in ('plain', 'far') else None)
                 if mode == 'spun_moved':
                     sp.spinCustom(rnd.uniform(-3, 3))
                 if mode != 'plain':
@@ -66,8 +75,11 @@ def run(res, tier, seed, driver_ok):
             bad('raises:inverseJacobian:%s' % type(e).__name__, 'IK / inverseJacobian raised', inp, repr(e)[:200]); continue
         if np.abs(sp.getTopT().gTM() - Tt).max() > 1e-9 or np.abs(sp.getBottomT().gTM() - Tb).max() > 1e-9:
             bad('query-moved:inverseJacobian', 'inverseJacobian changed a plate pose', inp, None)
-        if not np.linalg.cond(iJ) <= 1e4:
+        cnd = float(np.linalg.cond(iJ))
+        if not cnd <= 1e4:
             stats['skipped_ill_conditioned'] += 1; continue
+        if cnd > 1e3:
+            stats['cond_1e3_to_1e4'] = stats.get('cond_1e3_to_1e4', 0) + 1
         stats['poses'] += 1
         res.distinct.add(n_)
         bs = np.array(sp.getBottomJoints(), dtype=float); ts = np.array(sp.getTopJoints(), dtype=float)
@@ -81,7 +93,7 @@ def run(res, tier, seed, driver_ok):
 
         def cd(hh):
             return (lens(hh) - lens(-hh)) / (2 * hh)
-        hh = 1e-3
+        hh = 2e-4
         d = (4 * cd(hh / 2) - cd(hh)) / 3
         e = float(np.abs(iJ @ V - d).max())
         stats['worst_derivative_error'] = max(stats['worst_derivative_error'], e)
